@@ -172,8 +172,84 @@ def h_work():
     return ['work', name]
 
 
+def _tr(i, last):
+    return bytes([0 if last else 3, 0, 0, 8, 1, 0]) + (1000 + i).to_bytes(2, 'big')
+
+
+FAMILIES = {
+    # name -> (first payload type, body of the payload as a function of the number of elements)
+    'SA: one proposal, n distinct transforms': (33, lambda n: (lambda trs: b'\x00\x00' + (8 + len(trs)).to_bytes(2, 'big') + bytes([1, 3, 0, n % 256]) + trs)(
+        b''.join(_tr(i, i == n - 1) for i in range(n)))),
+    'SA: n proposals': (33, lambda n: b''.join(bytes([0 if i == n - 1 else 2, 0, 0, 16, (i % 255) + 1, 3, 0, 1]) + _tr(i, True) for i in range(n))),
+    'SA: one transform with n attributes': (33, lambda n: (lambda at: b'\x00\x00' + (8 + 8 + len(at)).to_bytes(2, 'big') + bytes([1, 3, 0, 1]) +
+                                                           b'\x00\x00' + (8 + len(at)).to_bytes(2, 'big') + b'\x01\x00\x00\x0c' + at)(
+        b''.join(b'\x80\x0e' + (128 + i).to_bytes(2, 'big') for i in range(n)))),
+    'TS: n selectors': (44, lambda n: bytes([n % 256, 0, 0, 0]) + b''.join(b'\x07\x06\x00\x10' + (i).to_bytes(2, 'big') + (i + 1).to_bytes(2, 'big') + bytes([10, 0, 0, 0, 10, 0, 0, 255])
+                                                                       for i in range(n))),
+    'DELETE: n SPIs': (42, lambda n: b'\x03\x04' + n.to_bytes(2, 'big') + b''.join((i + 1).to_bytes(4, 'big') for i in range(n))),
+    'chain of n VENDOR payloads': (43, None),
+    'chain of n NOTIFY payloads': (41, None),
+}
+
+
+def _family_datagram(name, n):
+    ptype, gen = FAMILIES[name]
+    if gen is not None:
+        body = gen(n)
+        chain = bytes([0, 0]) + (4 + len(body)).to_bytes(2, 'big') + body
+    else:
+        one = (lambda i: i.to_bytes(4, 'big')) if ptype == 43 else (lambda i: b'\x00\x00' + (16384 + i % 8).to_bytes(2, 'big') + i.to_bytes(4, 'big'))
+        chain = b''
+        for i in range(n):
+            b = one(i)
+            chain += bytes([0 if i == n - 1 else ptype, 0]) + (4 + len(b)).to_bytes(2, 'big') + b
+    total = 28 + len(chain)
+    return b'I' * 8 + b'R' * 8 + bytes([ptype, 0x20, 37, 0x08]) + (7).to_bytes(4, 'big') + total.to_bytes(4, 'big') + chain
+
+
+def _lines_of(m, data):
+    import sys
+    lines = [0]
+    here = m.__file__
+
+    def tracer(frame, event, arg):
+        if frame.f_code.co_filename == here:
+            lines[0] += 1
+        return tracer
+    old = sys.gettrace()
+    sys.settrace(tracer)
+    try:
+        try:
+            msg = m.Message.parse(data)
+            repr(msg.to_dict())
+            outcome = 'parsed'
+        except m.IkeSaError:
+            outcome = 'refused'
+    finally:
+        sys.settrace(old)
+    return lines[0], outcome
+
+
+def h_scaling():
+    """work grows linearly with the NUMBER OF ELEMENTS of every list-like structure (case split over FAMILIES): twice as many distinct transforms,
+    proposals, attributes, selectors, SPIs, chained payloads cost at most 2.6 times the Python lines of message.py (parse + eager dump), plus a constant"""
+    from symx import core
+    eng = core.engine()
+    m = MODS['message']
+    names = sorted(FAMILIES)
+    c = eng.sym_int('family', 0, len(names) - 1)
+    name = names[eng.concretize(c, 0, len(names) - 1) if not isinstance(c, int) else c]
+    n = 110
+    l1, o1 = _lines_of(m, _family_datagram(name, n))
+    l2, o2 = _lines_of(m, _family_datagram(name, 2 * n))
+    if l2 > 2.6 * l1 + 2000:
+        return {'class': ['scaling'], 'violation': f'{name}: {n} elements cost {l1} lines of message.py, {2 * n} elements cost {l2}: more than linear in the length of the datagram'}
+    return ['scaling', name, o1, o2]
+
+
 def build_instances(tier):
-    inst = [Instance('work is linear in the datagram length', h_work, (), native=common.native_of(h_work), engine_kw={'max_ticks': 10 ** 7})]
+    inst = [Instance('work is linear in the datagram length', h_work, (), native=common.native_of(h_work), engine_kw={'max_ticks': 10 ** 7}),
+            Instance('work is linear in the number of elements', h_scaling, (), native=common.native_of(h_scaling), engine_kw={'max_ticks': 10 ** 7})]
     unit_n = {'quick': (0, 1, 3, 4, 8, 12), 'thorough': (0, 1, 2, 3, 4, 5, 7, 8, 9, 12, 16)}[tier]
     for u in UNITS:
         for n in unit_n:
@@ -254,7 +330,7 @@ def replay_file(path):
         cipher, integ, prf = _crypto(12)
         crypto = MODS['crypto'].Crypto(cipher, b'e' * 32, integ, b'a' * 32, prf, b'p' * 32)
         fn = lambda: m.Message.parse(bytes.fromhex(inp['d']), crypto=crypto)
-    elif name.startswith('work is linear'):
+    elif name.startswith('work is linear'):   # both work harnesses
         return common.generic_replay_file(path, lambda: build_instances('quick'), lambda: None)
     elif name.startswith('Message.parse'):
         fn = lambda: m.Message.parse(bytes.fromhex(inp['d']), header_only='header_only' in name)
